@@ -242,6 +242,48 @@ pub fn long_text(mix: Mix) -> BoxedStrategy<String> {
         .boxed()
 }
 
+/// Number of tokens on a logarithmic scale up to `max` (so that texts of a
+/// few hundred to a few thousand bytes — beyond typical buffer, chunk and
+/// counter sizes such as 64 lines, 255/256 columns, 1024 or 4096 bytes —
+/// appear regularly, though rarely enough not to dominate the run time).
+pub fn log_count(max: usize) -> BoxedStrategy<usize> {
+    let bits = (usize::BITS - max.leading_zeros()) as usize;
+    (0usize..=bits, any::<u16>())
+        .prop_map(move |(b, x)| {
+            let lo = 1usize << b;
+            let hi = (lo * 2).min(max + 1);
+            if lo >= hi {
+                max
+            } else {
+                lo + pick(x, hi - lo)
+            }
+        })
+        .boxed()
+}
+
+/// A text on a logarithmic size scale together with a width chosen
+/// *relative to the text* (a fraction of its byte length), so that wrapping
+/// happens at every scale, including widths above 255 and texts beyond 4 KiB.
+pub fn scaled_text_and_width(mix: Mix, max_tokens: usize) -> BoxedStrategy<(String, usize)> {
+    (log_count(max_tokens), any::<u16>())
+        .prop_flat_map(move |(n, wx)| {
+            (prop::collection::vec(token(mix), n..=n), Just(wx)).prop_map(|(v, wx)| {
+                let t = v.concat();
+                // width between 1/16 and 1.25 x the byte length, or tiny
+                let len = t.len().max(1);
+                let w = match wx % 5 {
+                    0 => len / 16,
+                    1 => len / 4,
+                    2 => len / 2,
+                    3 => len + len / 4,
+                    _ => pick(wx, len + 2),
+                };
+                (t, w)
+            })
+        })
+        .boxed()
+}
+
 /// `p E p` or `p E p E p`: identical consecutive paragraphs.
 pub fn repeated(s: BoxedStrategy<String>) -> BoxedStrategy<String> {
     (s, prop_oneof![3 => Just("\n"), 1 => Just("\r\n")], 2usize..=3)
